@@ -8,6 +8,8 @@ import (
 	"crypto/x509"
 	"errors"
 	"fmt"
+	"os"
+	"path/filepath"
 	"sort"
 	"strings"
 	"sync"
@@ -15,8 +17,10 @@ import (
 	"time"
 
 	"github.com/notaryproject/notation-go"
+	"github.com/notaryproject/notation-go/dir"
 	"github.com/notaryproject/notation-go/verifier"
 	"github.com/notaryproject/notation-go/verifier/trustpolicy"
+	"github.com/notaryproject/notation-go/verifier/truststore"
 	"pgregory.net/rapid"
 
 	"verifharness/internal/envb"
@@ -39,6 +43,17 @@ type Case struct {
 	Format     string            `json:"format"`
 	Level      kit.Level         `json:"level"`
 	Token      bool              `json:"token"` // envelope carries a valid RFC 3161 countersignature (x509 only)
+	RealStore  bool              `json:"realStore"` // the directory-backed trust store instead of the scripted one
+}
+
+type loggingStore struct {
+	inner truststore.X509TrustStore
+	calls []string
+}
+
+func (l *loggingStore) GetCertificates(ctx context.Context, t truststore.Type, name string) ([]*x509.Certificate, error) {
+	l.calls = append(l.calls, string(t)+":"+name)
+	return l.inner.GetCertificates(ctx, t, name)
 }
 
 var (
@@ -124,15 +139,44 @@ func check(c Case) (string, string, bool) {
 		}
 	}
 	env := envb.Build(spec)
-	ts := mocks.NewTrustStore()
-	for ref, content := range c.Stores {
-		typ, name, _ := strings.Cut(ref, ":")
-		switch {
-		case strings.Contains(content, "E"):
-			ts.Fail(typ, name, errors.New("scripted load error"))
-		case content != "":
-			ts.Put(typ, name, certsFor(content)...)
+	var ts truststore.X509TrustStore
+	var calls func() []string
+	if c.RealStore {
+		root, err := os.MkdirTemp("", "c03-")
+		if err != nil {
+			return "harness", err.Error(), false
 		}
+		defer os.RemoveAll(root)
+		for ref, content := range c.Stores {
+			typ, name, _ := strings.Cut(ref, ":")
+			d := filepath.Join(root, "truststore", "x509", typ, name)
+			switch {
+			case content == "":
+				continue // absent store
+			case strings.Contains(content, "E"):
+				os.MkdirAll(d, 0o755)
+				os.WriteFile(filepath.Join(d, "broken.pem"), []byte("this is not a certificate"), 0o644)
+			default:
+				os.MkdirAll(d, 0o755)
+				for i, cert := range certsFor(content) {
+					os.WriteFile(filepath.Join(d, fmt.Sprintf("cert%d.pem", i)), pki.PEM(cert), 0o644)
+				}
+			}
+		}
+		lts := &loggingStore{inner: truststore.NewX509TrustStore(dir.NewSysFS(root))}
+		ts, calls = lts, func() []string { return lts.calls }
+	} else {
+		mts := mocks.NewTrustStore()
+		for ref, content := range c.Stores {
+			typ, name, _ := strings.Cut(ref, ":")
+			switch {
+			case strings.Contains(content, "E"):
+				mts.Fail(typ, name, errors.New("scripted load error"))
+			case content != "":
+				mts.Put(typ, name, certsFor(content)...)
+			}
+		}
+		ts, calls = mts, func() []string { return mts.Calls }
 	}
 	doc := &trustpolicy.OCIDocument{Version: "1.0"}
 	for k, list := range c.Statements {
@@ -184,7 +228,7 @@ func check(c Case) (string, string, bool) {
 	for _, r := range c.Statements[c.Select] {
 		listed[r] = true
 	}
-	for _, call := range ts.Calls {
+	for _, call := range calls() {
 		typ, _, _ := strings.Cut(call, ":")
 		if !listed[call] {
 			return "C03:calls:unlisted-store-loaded", fmt.Sprintf("store %q was loaded but the applicable statement lists %v", call, c.Statements[c.Select]), pass
@@ -257,12 +301,15 @@ func record(rec *stats.Recorder, c Case, pass bool) {
 	if c.Token {
 		cl = append(cl, "with-timestamp-token")
 	}
+	if c.RealStore {
+		cl = append(cl, "real-directory-store")
+	}
 	var keys []string
 	for k, v := range c.Stores {
 		keys = append(keys, k+"="+v)
 	}
 	sort.Strings(keys)
-	rec.Case(dedup(cl), nt, stats.Fingerprint(strings.Join(keys, ";"), fmt.Sprint(c.Statements), c.Wildcard, c.Select, c.Scheme, c.Format, c.Level.Key()), func() any { return c })
+	rec.Case(dedup(cl), nt, stats.Fingerprint(strings.Join(keys, ";"), fmt.Sprint(c.Statements), c.Wildcard, c.Select, c.Scheme, c.Format, c.Level.Key(), c.RealStore), func() any { return c })
 }
 
 func dedup(in []string) []string {
@@ -285,7 +332,11 @@ func TestC03_Placements(t *testing.T) {
 	rp.Check(t, 24000, 400000, func(rt *rapid.T) {
 		c := Case{Stores: map[string]string{}, Scheme: rp.Pick(rt, "scheme", "x509", "sa"), Format: rp.Pick(rt, "format", envb.MTJWS, envb.MTCOSE),
 			Level: kit.DrawLevel(rt), Token: rapid.IntRange(0, 3).Draw(rt, "token") == 0}
+		c.RealStore = rapid.IntRange(0, 5).Draw(rt, "realStore") == 0
 		contents := []string{"", "E", "u", "r", "i", "l", "ur", "ru", "il", "uE", "rE"}
+		if c.RealStore { // the directory store only loads CA / self-signed certificates: no leaf placements
+			contents = []string{"", "E", "u", "r", "i", "ur", "ru", "iu", "uE", "rE"}
+		}
 		for _, ref := range append(append([]string{}, universe...), unlistedStores...) {
 			content := rp.Pick(rt, "content:"+ref, contents...)
 			if strings.HasPrefix(ref, "tsa:") && content != "" && content != "E" && !strings.Contains(content, "E") {
